@@ -242,7 +242,7 @@ pub fn battery<T: Subject + AllPairs>(ctx: &mut Ctx, x: &T, model: &[bool], full
         b.d("Bvd::from(&y)", |y| <T as Pair<Bvd>>::conv_ref(y).map(|c| basic(&c)));
         b.d("Bv::from(&y)", |y| <T as Pair<Bv>>::conv_ref(y).map(|c| basic(&c)));
         b.d("Bvf<u64,3>::try_from(&y)", |y| <T as Pair<T9>>::conv_ref(y).map(|c| basic(&c)));
-        b.d("Bvf<u8,3>::try_from(&y)", |y| <T as Pair<T2>>::conv_ref(y).map(|c| basic(&c)));
+        b.d("Bvf<u8,7>::try_from(&y)", |y| <T as Pair<T2>>::conv_ref(y).map(|c| basic(&c)));
         b.d("Bvf<u128,3>::try_from(&y)", |y| <T as Pair<T11>>::conv_ref(y).map(|c| basic(&c)));
         b.d("Bvd::from(y)", |y| <T as Pair<Bvd>>::conv_val(y.clone()).map(|r| r.map(|c| basic(&c))));
         b.d("Bv::from(y)", |y| <T as Pair<Bv>>::conv_val(y.clone()).map(|r| r.map(|c| basic(&c))));
